@@ -110,6 +110,37 @@ pub fn gen(r: &mut Rng, t: &Value, cfg: &Cfg) -> Value {
                 _ => json!(lo.max(-1000) + (r.below(2000) as i64).min(hi.saturating_sub(lo.max(-1000)))),
             }
         }
+        "intlax" => {
+            // an integer, or (legacy power levels) a string holding one
+            match r.below(10) {
+                0 => json!(*r.pick(&["50", "+5", " 7 ", "-3", "0", "\t100\n", "9007199254740991", "-9007199254740991"])),
+                1 if cfg.bad > 0 => json!(*r.pick(&["++1", "+", "-", "", " ", "abc", "1.0", "9007199254740992", "+-1", "0x10", "5 0"])),
+                2 => json!(50),
+                3 => json!(0),
+                4 => json!(-1),
+                5 => json!(MAXI),
+                _ => json!((r.below(201) as i64) - 100),
+            }
+        }
+        "mapenum" => {
+            let al = a[1].as_array().unwrap();
+            let mut m = Map::new();
+            for _ in 0..r.below(4) {
+                let k = match r.below(4) {
+                    0 if !al.is_empty() => r.pick(al).as_array().unwrap()[r.below(2)].as_str().unwrap().to_owned(),
+                    1 => (*r.pick(&["m.room.name", "m.room.power_levels", "m.room.message", "m.reaction"])).to_owned(),
+                    _ => (*r.pick(STRS)).to_owned(),
+                };
+                m.insert(k, gen(r, &a[2], cfg));
+            }
+            if !al.is_empty() && r.chance(1, 4) {
+                // the legacy and the standard name of one type together: one entry survives
+                let p = r.pick(al).as_array().unwrap();
+                m.insert(p[0].as_str().unwrap().to_owned(), gen(r, &a[2], cfg));
+                m.insert(p[1].as_str().unwrap().to_owned(), gen(r, &a[2], cfg));
+            }
+            Value::Object(m)
+        }
         "any" => rand_json(r, 0),
         // the tag member of a tagged struct: not looked at on input, so anything may stand there
         "const" => if r.chance(1, 4) { rand_json(r, 1) } else { a[1].clone() },
